@@ -1064,8 +1064,97 @@ static void part_b_cross(void) {
 	}
 }
 
+/* =================================================================================================== part (c)
+ * a configuration REQUEST through the HA service: it goes to every endpoint; each endpoint answers with a configuration, with an
+ * error PDU, or never; every order of the answers. run() never fails, the request comes back exactly once - with a configuration if
+ * any endpoint delivered one (whatever failed before or after), with an error only after every endpoint has failed - and there are
+ * never more error notices than failed endpoints. */
+static void part_c(void) {
+	static const char KCH[4] = "CPT";       /* configuration, error PDU, never */
+	int nE, code, perm;
+	for (nE = 2; nE <= 3; nE++) {
+		int ncodes = nE == 2 ? 9 : 27, nperm = nE == 2 ? 2 : 6;
+		static const int P2[2][3] = {{0, 1, 0}, {1, 0, 0}};
+		static const int P3[6][3] = {{0, 1, 2}, {0, 2, 1}, {1, 0, 2}, {1, 2, 0}, {2, 0, 1}, {2, 1, 0}};
+		for (code = 0; code < ncodes; code++) for (perm = 0; perm < nperm; perm++) {
+			int kind[3], e, i, c = code, nconf = 0, nfail = 0, back = 0, back_state = -1, notices = 0, confs = 0, rounds;
+			char nm[4];
+			KSI_AsyncHandle *h = NULL;
+			KSI_AggregationReq *rq = NULL;
+			KSI_Config *cf = NULL;
+			for (e = 0; e < nE; e++) { kind[e] = c % 3; c /= 3; nm[e] = KCH[kind[e]]; nconf += kind[e] == 0; nfail += kind[e] != 0; }
+			nm[nE] = 0;
+			if (!vf_case_begin("ha-conf-request:e%d:%s:order%d", nE, nm, perm)) continue;
+			W.nE = nE; W.nR = 1;
+			for (e = 0; e < nE; e++) W.out[e] = O_VALID;
+			a_open();
+			if (KSI_AggregationReq_new(W.ctx, &rq) != KSI_OK || KSI_Config_new(W.ctx, &cf) != KSI_OK || KSI_AggregationReq_setConfig(rq, cf) != KSI_OK) vf_harness_error("configuration request objects");
+			if (KSI_AsyncAggregationHandle_new(W.ctx, rq, &h) != KSI_OK) vf_harness_error("configuration request handle");
+			if (KSI_AsyncService_addRequest(W.ha, h) != KSI_OK) { vf_fail("submission-refused", "the HA service refused a configuration request although every endpoint has room"); KSI_AsyncHandle_free(h); h = NULL; }
+			for (i = 0; h != NULL && i <= nE + 1; i++) {
+				/* step 0: the request goes out; steps 1..nE: one endpoint answers; last step: the clock passes all time-outs */
+				if (i >= 1 && i <= nE) {
+					int ep = (nE == 2 ? P2[perm] : P3[perm])[i - 1];
+					sn_conn *cn = ep_conn(ep);
+					if (kind[ep] != 2 && cn != NULL) {
+						rp_env env;
+						vbuf b, payload;
+						memset(&env, 0, sizeof env);
+						env.version = 2; env.kind = RP_AGGR; env.login = LOGIN; env.mac_alg = RH_SHA256; env.key = KEY; env.keylen = strlen(KEY);
+						vb_init(&b); vb_init(&payload);
+						if (kind[ep] == 0) rp_aggr_conf_payload(&payload, 10 + ep, 1, 400, 100 + ep, NULL);
+						else rp_error_payload(&payload, 2, RP_AGGR, 0x0300, "upstream error");
+						rp_wrap_response(&b, &env, payload.p, payload.n);
+						sn_server_write(cn, b.p, b.n);
+						vb_free(&b); vb_free(&payload);
+					}
+				}
+				if (i == nE + 1) sn_now += TIMEOUT_S + 1;
+				for (rounds = 0; rounds < 4; rounds++) {
+					KSI_AsyncHandle *out = NULL;
+					size_t waiting = 0;
+					int st = -1, res = KSI_AsyncService_run(W.ha, &out, &waiting);
+					vf_count("impl_calls", 1);
+					if (res != KSI_OK) { vf_fail("ha-run-error", "configuration request through %d endpoints (answers %s, order %d): run() failed with 0x%x after step %d", nE, nm, perm, res, i); break; }
+					if (out == NULL) continue;
+					KSI_AsyncHandle_getState(out, &st);
+					if (out == h) { back++; back_state = st; }
+					else if (st == KSI_ASYNC_STATE_ERROR_NOTICE) { notices++; KSI_AsyncHandle_free(out); }
+					else if (st == KSI_ASYNC_STATE_PUSH_CONFIG_RECEIVED) {
+						/* the HA service answers a configuration request the way it reports pushed configurations: with a handle of its own
+						 * that carries the consolidated configuration (one per endpoint reply that changed it) */
+						KSI_Config *got = NULL;
+						confs++;
+						if (KSI_AsyncHandle_getConfig(out, &got) != KSI_OK || got == NULL) vf_fail("response-without-configuration", "configuration request (answers %s, order %d): a configuration handle without a configuration", nm, perm);
+						KSI_AsyncHandle_free(out);
+					}
+					else { vf_fail("foreign-handle", "configuration request through the HA service: run() returned another handle in state %d", st); KSI_AsyncHandle_free(out); }
+				}
+			}
+			if (h != NULL) {
+				if (back > 1) vf_fail("completed-twice", "configuration request through %d endpoints (answers %s, order %d): the request handle was handed back %d times", nE, nm, perm, back);
+				if (nconf == 0) {
+					/* every endpoint failed: the request itself comes back, once, in the error state */
+					if (back != 1 || back_state != KSI_ASYNC_STATE_ERROR) vf_fail("request-lost", "configuration request through %d endpoints (answers %s, order %d): every endpoint failed, the request was handed back %d times (state %d)", nE, nm, perm, back, back_state);
+					if (confs) vf_fail("response-without-valid-reply", "configuration request (answers %s): no endpoint delivered a configuration but %d configuration handles were returned", nm, confs);
+				} else {
+					if (confs == 0 && !(back == 1 && back_state == KSI_ASYNC_STATE_PUSH_CONFIG_RECEIVED)) vf_fail("request-lost", "configuration request through %d endpoints (answers %s, order %d): %d endpoint(s) delivered a configuration but none was handed to the caller", nE, nm, perm, nconf);
+					if (back == 1 && back_state == KSI_ASYNC_STATE_ERROR) vf_fail("error-despite-valid-response", "configuration request through %d endpoints (answers %s, order %d): an endpoint delivered a configuration but the request came back in the error state", nE, nm, perm);
+					if (confs > nconf) vf_fail("response-without-valid-reply", "configuration request (answers %s, order %d): %d configuration handles for %d configuration replies", nm, perm, confs, nconf);
+				}
+				if (notices > nfail) vf_fail("notice-without-cause", "configuration request (answers %s, order %d): %d error notices, %d endpoints failed", nm, perm, notices, nfail);
+				vf_outcome("ha-conf-request:%s:%d-notices", nconf ? "configuration" : "error", notices);
+				if (back == 1) KSI_AsyncHandle_free(h);
+			}
+			a_close();
+			vf_case_end(1);
+		}
+	}
+}
+
 static void run(void) {
 	part_a();
+	part_c();
 	part_b_single();
 	part_b_cross();
 }
